@@ -203,6 +203,10 @@ pub fn enc_items(items: &[(String, String)]) -> String {
 /// representatives of the lexer's character classes
 pub const ALPHABET: [&str; 12] = ["a", "-", ":", "#", " ", "\t", "\n", "\r", "é", "😀", "\u{1}", "~"];
 
+/// characters a "lenient" rewrite is likely to special-case: BOM, Unicode white space other than
+/// space/tab (NBSP, ideographic space, VT, FF, NEL, LINE SEPARATOR), NUL, DEL
+pub const ODD_CHARS: [&str; 9] = ["\u{feff}", "\u{a0}", "\u{3000}", "\u{b}", "\u{c}", "\u{85}", "\u{2028}", "\u{0}", "\u{7f}"];
+
 /// a random, mostly well-formed deb822 text with irregular layout (for mutation)
 pub fn random_doc(rng: &mut Rng) -> String {
     let names = ["A", "Source", "X-Y", "a1", "~k", "Foo_bar"];
@@ -262,7 +266,7 @@ pub fn mutate(rng: &mut Rng, s: &str) -> String {
             out.insert(i, chars[i]);
         }
         2 => {
-            let c = rng.pick(&ALPHABET).chars().next().unwrap();
+            let c = if rng.chance(25) { rng.pick(&ODD_CHARS).chars().next().unwrap() } else { rng.pick(&ALPHABET).chars().next().unwrap() };
             out.insert(i, c);
         }
         3 => out.truncate(i),
@@ -282,6 +286,34 @@ pub fn gen_texts(tier: &str, seed: u64) -> Vec<String> {
     let thorough = tier == "thorough";
     let mut v = strings_upto(&ALPHABET, if thorough { 6 } else { 5 });
     let mut rng = Rng::new(seed);
+    // every odd character at every position of every short string over the core classes
+    let core = ["a", ":", " ", "\n", "#"];
+    for base in strings_upto(&core, if thorough { 4 } else { 3 }) {
+        let chars: Vec<char> = base.chars().collect();
+        for odd in ODD_CHARS.iter() {
+            for i in 0..=chars.len() {
+                let mut t: String = chars[..i].iter().collect();
+                t.push_str(odd);
+                t.extend(chars[i..].iter());
+                v.push(t);
+            }
+        }
+    }
+    // odd characters inside realistic documents: first character, after the colon, start of a
+    // continuation line, inside a key
+    for odd in ODD_CHARS.iter() {
+        for t in [
+            format!("{}Source: foo\nA: b\n", odd),
+            format!("Source:{}foo\n", odd),
+            format!("Source: {}foo\n {}bar\n", odd, odd),
+            format!("Source: foo\n{}bar\n", odd),
+            format!("So{}urce: foo\n", odd),
+            format!("Source: foo{}\n\n{}\nB: c", odd, odd),
+            format!("# c{}\nA: b\n", odd),
+        ] {
+            v.push(t);
+        }
+    }
     let n = if thorough { 300_000 } else { 20_000 };
     for _ in 0..n {
         let d = random_doc(&mut rng);
